@@ -15,8 +15,8 @@ theorem ctx_congr {W : World} {s t : SimState} (h : s.get W.P = t.get W.P) : ctx
   simp [ctx, h]
 
 theorem apply_congr {W : World} {s t : SimState} (h : s.get W.P = t.get W.P) (a : Action) (args : List String) :
-    Spec.apply W s a args = Spec.apply W t a args := by
-  simp only [Spec.apply, successor, successorOf, ctx_congr h]
+    Spec.applyT W s a args = Spec.applyT W t a args := by
+  simp only [Spec.applyT, successor, successorOf, ctx_congr h]
 
 theorem isGoal_congr {W : World} {s t : SimState} (h : s.get W.P = t.get W.P) :
     Spec.isGoal W s = Spec.isGoal W t := by
@@ -167,8 +167,8 @@ theorem unsatPre_nil {c : EvalCtx} (early : Bool) : ∀ (ps : List Expr) (i : Na
 /-! ### `get_unsatisfied_conditions` + `apply_unsafe` against the documented step -/
 
 theorem spec_apply_of_ground {W : World} {s : SimState} {a : Action} {args : List String} {g : GAction}
-    (hg : ground W a args = .ok (some g)) : Spec.apply W s a args = successor W s g := by
-  simp [Spec.apply, hg]
+    (hg : groundT W a args = .ok (some g)) : Spec.applyT W s a args = successor W s g := by
+  simp [Spec.applyT, hg]
 
 /-- the step succeeded: the new state reads as the documented successor -/
 theorem simStep_go {W : World} {s s' : SimState} {ai : Inst} (h : simStep W s ai = .ok (.go s')) :
@@ -176,7 +176,7 @@ theorem simStep_go {W : World} {s s' : SimState} {ai : Inst} (h : simStep W s ai
   unfold simStep at h
   by_cases hmem : ai.1 ∈ W.P.actions
   · simp only [hmem, not_true_eq_false, if_false] at h
-    cases hg : ground W ai.1 ai.2 with
+    cases hg : groundT W ai.1 ai.2 with
     | error x => rw [hg] at h; cases h
     | ok og =>
       rw [hg] at h
@@ -219,12 +219,12 @@ theorem simStep_stop {W : World} {s : SimState} {ai : Inst} {w : Why} (h : simSt
   by_cases hmem : ai.1 ∈ W.P.actions
   · simp only [hmem, not_true_eq_false, if_false] at h
     right
-    cases hg : ground W ai.1 ai.2 with
+    cases hg : groundT W ai.1 ai.2 with
     | error x => rw [hg] at h; cases h
     | ok og =>
       rw [hg] at h
       cases og with
-      | none => simp [Spec.apply, hg]
+      | none => simp [Spec.applyT, hg]
       | some g =>
         dsimp only at h
         rw [spec_apply_of_ground hg]
@@ -277,7 +277,7 @@ theorem costStep_go {W : World} {costs : List (String × Expr)} {dflt : Option E
     by_cases hl : ai.1.params.length = ai.2.length
     · simp only [hl, ne_eq, not_true_eq_false, if_false, if_true] at h ⊢
       unfold numVal
-      cases he : eval (ctx W s) [] (substE (paramSubst W.P ai.1 ai.2) c) with
+      cases he : eval (ctx W s) [] (substE (paramSubstT W.P ai.1 ai.2) c) with
       | error x => rw [he] at h; cases x <;> cases h
       | ok v =>
         rw [he] at h
@@ -301,7 +301,7 @@ theorem costStep_stop {W : World} {costs : List (String × Expr)} {dflt : Option
     by_cases hl : ai.1.params.length = ai.2.length
     · simp only [hl, ne_eq, not_true_eq_false, if_false, if_true] at h ⊢
       unfold numVal
-      cases he : eval (ctx W s) [] (substE (paramSubst W.P ai.1 ai.2) c) with
+      cases he : eval (ctx W s) [] (substE (paramSubstT W.P ai.1 ai.2) c) with
       | error x => rfl
       | ok v =>
         rw [he] at h
